@@ -265,7 +265,29 @@ pub fn run(tier: Tier, files: &[(String, String)]) -> i32 {
     rep.finish()
 }
 
+/// Replay of one recorded line: look the same case (type|repr|expression) up
+/// in freshly produced driver outputs of all four configurations.
+pub fn replay_in(case: &Value, dir: &str) -> Option<(String, bool)> {
+    let line = case["line"].as_str().or(case["base"].as_str())?;
+    let key: String = line.trim_start_matches("MISMATCH ").split(" => ").next()?.to_string();
+    let mut seen = Vec::new();
+    let mut bad = false;
+    for cfg in ["base", "sync", "spec", "spec-sync"] {
+        let txt = std::fs::read_to_string(format!("{}/{}.txt", dir, cfg)).ok()?;
+        let hit: Vec<&str> = txt.lines().filter(|l| l.trim_start_matches("MISMATCH ").starts_with(&format!("{} => ", key))).collect();
+        if hit.iter().any(|l| l.starts_with("MISMATCH ")) {
+            bad = true;
+        }
+        seen.push(format!("[{}] {}", cfg, hit.iter().find(|l| !l.starts_with("MISMATCH ")).unwrap_or(&"<absent>")));
+    }
+    let outs: std::collections::BTreeSet<String> = seen.iter().map(|s| s.splitn(2, "] ").nth(1).unwrap_or("").to_string()).collect();
+    if outs.len() > 1 {
+        bad = true;
+    }
+    Some((seen.join(" ; "), bad))
+}
+
 pub fn replay(case: &Value) -> Option<(String, bool)> {
-    // a C17 case is a line of a driver file; re-run the whole check through scripts/check-C17.sh
-    Some((format!("re-run ./check C17 quick to reproduce: {}", case), true))
+    let dir = std::env::var("C17_OUT").ok()?;
+    replay_in(case, &dir)
 }
